@@ -4,6 +4,7 @@ import Mathlib.Data.List.Nodup
 import Skc.Model.Pipeline
 set_option linter.unusedSectionVars false
 set_option linter.unusedVariables false
+set_option linter.unusedSimpArgs false
 
 /-! Helper lemmas for C16, part 1: Python slices, the transform loop as a monadic fold, splitting a
 pipeline, nested pipelines. -/
